@@ -2002,36 +2002,31 @@ namespace
     }
     value throw_any(runtime& runtime, value::cref right)
     {
-        auto res = std::find_if(runtime.context_active().frames_rbegin(), runtime.context_active().frames_rend(), [&](frame& f) -> bool {
-            return f.can_recover_runtime_error();
-            });
-        if (res == runtime.context_active().frames_rend())
+        auto& context = runtime.context_active();
+        std::vector<sqf::runtime::frame> stacktrace_frames(context.frames_rbegin(), context.frames_rend());
+        sqf::runtime::diagnostics::stacktrace stacktrace(stacktrace_frames);
+        stacktrace.value = right;
+        // The exception goes to the nearest enclosing handler that takes it.
+        // A handler that is already running (throw inside of a catch block) refuses, its enclosing ones get asked then.
+        for (auto it = context.frames_rbegin(); it != context.frames_rend(); ++it)
         {
-            runtime.__logmsg(err::ErrorMessage(runtime.context_active().current_frame().diag_info_from_position(), "THROW", right.data()->to_string_sqf()));
-        }
-        else
-        {
-            std::vector<sqf::runtime::frame> stacktrace_frames(runtime.context_active().frames_rbegin(), runtime.context_active().frames_rend());
-            sqf::runtime::diagnostics::stacktrace stacktrace(stacktrace_frames);
-            stacktrace.value = right;
-            auto valpos = runtime.context_active().values_size();
-            runtime.context_active().push_value(stacktrace);
-            if (res->recover_runtime_error(runtime) == frame::result::error)
+            if (!it->can_recover_runtime_error())
             {
-                if (valpos > 0)
+                continue;
+            }
+            context.push_value(stacktrace);
+            if (it->recover_runtime_error(runtime) != frame::result::error)
+            {
+                auto drop = it - context.frames_rbegin();
+                while (drop-- != 0)
                 {
-                    runtime.context_active().pop_value();
+                    context.pop_frame();
                 }
-                runtime.__logmsg(err::ErrorMessage(runtime.context_active().current_frame().diag_info_from_position(), "THROW", right.data()->to_string_sqf()));
                 return {};
             }
-
-            auto drop = res - runtime.context_active().frames_rbegin();
-            while (drop-- != 0)
-            {
-                runtime.context_active().pop_frame();
-            }
+            context.pop_value(true);
         }
+        runtime.__logmsg(err::ErrorMessage(context.current_frame().diag_info_from_position(), "THROW", right.data()->to_string_sqf()));
         return {};
     }
     value throw_if_any(runtime& runtime, value::cref left, value::cref right)
@@ -2052,17 +2047,19 @@ namespace
         {
         private:
             instruction_set m_set;
+            bool m_exchanged;
         public:
-            behavior_catch_exit(instruction_set set) : m_set(set) {}
+            behavior_catch_exit(instruction_set set) : m_set(set), m_exchanged(false) {}
             virtual sqf::runtime::instruction_set get_instruction_set(sqf::runtime::frame& frame) override { return m_set; };
             virtual result enact(sqf::runtime::runtime& runtime, sqf::runtime::frame& frame) override
             {
-                if (runtime.__runtime_error())
-                {
+                if (runtime.__runtime_error() || m_exchanged)
+                { // catch handles what the try block throws, not runtime errors and not what it throws itself
                     return result::fail;
                 }
                 else
                 {
+                    m_exchanged = true;
                     auto val = runtime.context_active().pop_value();
                     runtime.context_active().clear_values();
                     frame.clear_value_scope();
